@@ -256,6 +256,56 @@ fn main() {
             let stack: usize = get("stack", "256").parse().unwrap();
             println!("{}", wv::traversal::deep_nesting(depth, stack));
         }
+        Some("trace-parse") => {
+            // sequential, one flushed line per case, so that a crash or hang identifies its input:
+            // start=<k> skips the first k cases; a watchdog ends the process (exit 77) when a case takes too long
+            use std::io::Write;
+            let valid = cases::resolve_inputs(&get("inputs", "fixtures,gen:50"), seed);
+            let all = cases::resolve_inputs(&get("extra", ""), seed);
+            let mut corpus = wv::parsegate::corpus(seed, n as usize, &valid);
+            corpus.extend(all);
+            let start: usize = get("start", "0").parse().unwrap();
+            let mut f = std::fs::OpenOptions::new().create(true).append(true).open(&out).unwrap();
+            let beat = std::sync::Arc::new(std::sync::atomic::AtomicU64::new(0));
+            let b2 = beat.clone();
+            let limit: u64 = get("limit_s", "20").parse().unwrap();
+            std::thread::spawn(move || {
+                let mut last = 0u64;
+                let mut since = std::time::Instant::now();
+                loop {
+                    std::thread::sleep(std::time::Duration::from_millis(200));
+                    let now = b2.load(std::sync::atomic::Ordering::SeqCst);
+                    if now != last {
+                        last = now;
+                        since = std::time::Instant::now();
+                    } else if since.elapsed().as_secs() >= limit {
+                        eprintln!("watchdog: case {} exceeded {}s", now, limit);
+                        std::process::exit(77);
+                    }
+                }
+            });
+            let total = corpus.len() * 2;
+            for (k, (inp, stable)) in corpus.iter().flat_map(|i| [(i, false), (i, true)]).enumerate() {
+                if k < start {
+                    continue;
+                }
+                beat.store(k as u64 + 1, std::sync::atomic::Ordering::SeqCst);
+                let line = wv::parsegate::parse_case(inp, stable);
+                serde_json::to_writer(&mut f, &line).unwrap();
+                f.write_all(b"\n").unwrap();
+                f.flush().unwrap();
+            }
+            println!("cases {}", total);
+        }
+        Some("parse-one") => {
+            // describe case number k of the corpus (used for crash / hang records)
+            let valid = cases::resolve_inputs(&get("inputs", "fixtures,gen:50"), seed);
+            let mut corpus = wv::parsegate::corpus(seed, n as usize, &valid);
+            corpus.extend(cases::resolve_inputs(&get("extra", ""), seed));
+            let k: usize = get("k", "0").parse().unwrap();
+            let inp = &corpus[k / 2];
+            println!("{}", serde_json::json!({"id": format!("{}~{}", inp.id, if k % 2 == 1 { "stable" } else { "default" }), "source": inp.source, "hex": cases::hex(&inp.bytes[..inp.bytes.len().min(4096)])}));
+        }
         Some("digests") => {
             // one line per input: id and digest of  parse ; emit  with the default switches (separate process per call)
             let inputs = cases::resolve_inputs(&get("inputs", "gen:100"), seed);
